@@ -66,7 +66,7 @@ theorem primsOK_klgr (P : Params) (h : Nat) : PrimsOK P h keepLogGrowRels where
   subBal a t v _ := subBal_step_of P a t v (Step.guarded (fun s => klgr_keep _ _ rfl rfl)) (Step.guarded (fun s => klgr_keep _ _ rfl rfl))
   insertRate _ _ := Step.guarded (fun s => klgr_keep _ _ rfl rfl)
   insertHistBatch _ := Step.guarded (fun s => klgr_keep _ _ rfl rfl)
-  insertHistTx _ := Step.guarded (fun s => klgr_keep _ _ rfl rfl)
+  insertHistTx _ _ := Step.guarded (fun s => klgr_keep _ _ rfl rfl)
   insertLookup _ := Step.guarded (fun s => by split <;> exact klgr_keep _ _ rfl rfl)
   setExecuted _ _ := Step.guarded (fun s => klgr_keep _ _ rfl rfl)
   setConvertedAmount _ _ _ := Step.guarded (fun s => klgr_keep _ _ rfl rfl)
